@@ -1135,9 +1135,11 @@ def gen_history(ctx: Ctx, rng):
         kind = rng.choice(["circuit", "circuit", "circuit", "inputs", "inputs", "ps", "ps", "pnr", "param", "mutate"])
         im = meta[sh["circuit"]][0]
         if kind == "circuit":
-            name = rng.choice([x for x in meta if x != sh["circuit"]] or list(meta))
+            # re-declarations of the heralds on the same network (same U_full) are the likeliest targets
+            cands = [x for x in meta if x != sh["circuit"]] or list(meta)
+            name = rng.choice([x for x in cands for _ in range(3 if x in "ABC" else 1)])
             nim = meta[name][0]
-            keep = nim == im and rng.random() < 0.6
+            keep = nim == im and rng.random() < 0.75
             ins = None if keep else inputs_for(nim, sum(sh["inputs"][0]))
             nph = sum((ins or sh["inputs"])[0])
             rules = None if (nim == im and rng.random() < 0.7) else gen_live_rules(rng, nim, nph)
